@@ -370,7 +370,7 @@ pub fn value_pool() -> Vec<Value> {
     for x in [0.0f64, 1.0, -1.0, 0.5, 1.5, 1.0e300, 1.0e-300, 9007199254740993.0, 0.1, 1.0e15, 1.0e16, f64::MAX, 5e-324] {
         p.push(x.into());
     }
-    for s in ["", "a", "it's", "back\\slash", "q\"q", "new\nline\ttab", "é😀", "100%_", "ends with \\", "?", "$1", "'; DROP TABLE t1; --"] {
+    for s in ["", "a", "it's", "back\\slash", "q\"q", "new\nline\ttab", "é😀", "100%_", "ends with \\", "?", "$1", "'; DROP TABLE t1; --", "café d'Or", "你好\n", "naïve \\ \"q\" 😀'", "null", "NULL", "CURRENT_TIMESTAMP", "true", "DEFAULT"] {
         p.push(s.to_string().into());
     }
     for c in ['a', '\'', '\\', 'é', '😀', '\n', '\u{1a}', '"'] {
@@ -403,6 +403,20 @@ pub fn value_pool() -> Vec<Value> {
     p.push(time::Time::from_hms(1, 2, 3).unwrap().into());
     p.push(time::PrimitiveDateTime::new(td, time::Time::from_hms_micro(1, 2, 3, 456789).unwrap()).into());
     p.push(time::PrimitiveDateTime::new(td, time::Time::MIDNIGHT).assume_offset(time::UtcOffset::from_hms(5, 30, 0).unwrap()).into());
+    // days on which the ISO week-based year differs from the calendar year, the last and first day of a year, a leap day
+    // in a century year, the earliest and latest four-digit years - in every date-carrying type of both date crates
+    for (y, m, dd) in [(2021, 1, 1), (2024, 12, 30), (2020, 12, 31), (2000, 2, 29), (1000, 1, 1), (9999, 12, 31)] {
+        let cd = chrono::NaiveDate::from_ymd_opt(y, m, dd).unwrap();
+        let ct = chrono::NaiveTime::from_hms_opt(0, 0, 0).unwrap();
+        p.push(cd.into());
+        p.push(cd.and_time(ct).into());
+        p.push(chrono::Utc.from_utc_datetime(&cd.and_time(ct)).into());
+        p.push(chrono::FixedOffset::east_opt(3600).unwrap().from_utc_datetime(&cd.and_time(ct)).into());
+        let tdd = time::Date::from_calendar_date(y, time::Month::try_from(m as u8).unwrap(), dd as u8).unwrap();
+        p.push(tdd.into());
+        p.push(time::PrimitiveDateTime::new(tdd, time::Time::MIDNIGHT).into());
+        p.push(time::PrimitiveDateTime::new(tdd, time::Time::MIDNIGHT).assume_utc().into());
+    }
     p.push(uuid::Uuid::from_u128(0x0123456789abcdef0123456789abcdef).into());
     for (m, s) in [(0i64, 0u32), (15, 1), (-15, 3), (i64::MAX, 10), (100, 2)] {
         p.push(rust_decimal::Decimal::new(m, s).into());
